@@ -5,7 +5,7 @@ import sys
 
 from . import core
 
-NOMAX = 99
+NOMAX = 100000
 NOBOUND = -1
 
 
